@@ -180,13 +180,17 @@ func evalC12(c *Ctx, cs C12Case, alsoCLI bool) string {
 			defer os.RemoveAll(dir)
 			in := filepath.Join(dir, "g.y")
 			os.WriteFile(in, []byte(cs.Text), 0o644)
-			r := gen.Generate(c.CLI(), gen.VGo, in, filepath.Join(dir, "g.go"), 60*time.Second)
+			v := gen.VGo
+			if Hash(cs.Text)%2 == 0 {
+				v = gen.VTs
+			}
+			r := gen.Generate(c.CLI(), v, in, filepath.Join(dir, "g.out"), 60*time.Second)
 			if r.TimedOut {
 				c.Inconclusive("CLI timed out")
 			} else if r.Failed() == want {
 				return fmt.Sprintf("CLI exit status %d on a grammar that is usable=%v (%s)\nstderr: %s\n%s", r.Exit, want, why, clip(r.Stderr, 300), cs.Text)
 			} else {
-				c.Class("also-through-cli")
+				c.Class("also-through-cli:" + v.Name)
 			}
 		}
 	}
